@@ -31,6 +31,7 @@ mod c15;
 mod c16;
 mod c17;
 mod c18;
+mod c19;
 mod faults;
 
 use engine::{Property, RunCfg, Tier};
@@ -70,6 +71,7 @@ fn build(id: &str, ctx: &Ctx) -> Option<Property> {
         "C16" => c16::build(ctx),
         "C17" => c17::build(ctx),
         "C18" => c18::build(ctx),
+        "C19" => c19::build(ctx),
         _ => return None,
     })
 }
